@@ -19,12 +19,17 @@ import (
 
 var errInjected = errors.New("injected")
 
+// the values a failing reader returns: whatever it is, Parse must hand it back ("read errors are returned"); among them
+// the ones net/http and pipes produce for a body that was cut short
+var injReadErrs = []error{errInjected, io.ErrUnexpectedEOF, io.ErrClosedPipe, io.ErrNoProgress}
+
 // schedReader mirrors CP.Rd of the Lean model exactly.
 type schedReader struct {
 	rest        []byte
 	sched       []int
 	eofWithData bool
 	failRead    int // -1 = never
+	failErr     error
 	calls       int
 	ends        []int // cumulative number of bytes handed out after each Read call (0-byte calls included)
 	total       int
@@ -38,7 +43,7 @@ func (r *schedReader) Read(p []byte) (n int, err error) {
 func (r *schedReader) read(p []byte) (int, error) {
 	r.calls++
 	if r.failRead == 0 {
-		return 0, errInjected
+		return 0, r.failErr
 	}
 	if r.failRead > 0 {
 		r.failRead--
@@ -123,7 +128,7 @@ func runParse(input []byte, sched []int, eofWithData bool, failRead, failCb int,
 			}
 		}()
 		rd := &schedReader{rest: append([]byte(nil), input...), sched: append([]int(nil), sched...),
-			eofWithData: eofWithData, failRead: failRead}
+			eofWithData: eofWithData, failRead: failRead, failErr: injReadErrs[(len(input)+len(sched)+maxInt(failRead, 0))%len(injReadErrs)]}
 		var cbs []cbRec
 		nCb := 0
 		cb := func(cd chunkparser.ChunkData) error {
@@ -143,13 +148,17 @@ func runParse(input []byte, sched []int, eofWithData bool, failRead, failCb int,
 		kind := "done"
 		switch {
 		case err == nil:
-		case errors.Is(err, errInjected):
+		case errors.Is(err, errInjected) && failCb >= 0 && nCb-1 == failCb && rd.failErr != errInjected:
+			kind = "cberr"
+		case err == rd.failErr:
 			// which one? a callback error is returned right after the failing call
-			if failCb >= 0 && nCb-1 == failCb {
+			if failCb >= 0 && nCb-1 == failCb && rd.failRead != 0 {
 				kind = "cberr"
 			} else {
 				kind = "readerr"
 			}
+		case errors.Is(err, errInjected):
+			kind = "cberr"
 		case strings.Contains(err.Error(), "box size"):
 			kind = "badsize"
 		default:
